@@ -584,6 +584,14 @@ pub fn c15(tier: Tier) -> i32 {
     // (f) the converter at the ends of the calendar: every row kind dated within 10 days of the first and last dates
     // the date type holds, of year 0/1 and of year 9999/10000, with and without an awards file
     converter_calendar_ends(&ctx, &mut acc);
+    // (g) the converter on every short row sequence (Cancel Sell / Sell / RSU / dividend / withholding / unknown rows in
+    // every order), with and without an awards file
+    {
+        let part = crate::conv::c15_row_sequences(&ctx, if tier == Tier::Quick { 4 } else { 5 });
+        eprintln!("  [C15] converter row sequences: {} exports, {} conversions", part.states, part.validated);
+        acc = Acc::merge(acc, part);
+        ctx.require(acc.get("converter:row-sequences") > 0, "no converter row sequence was run");
+    }
     // (e) the MCP entry point: malformed JSON ledgers with a multi-byte character at every offset around the error site
     crate::mcp::malformed_json_sweep(&ctx, &mut acc, "C15");
     for k in ["tokens:parse-error", "tokens:report", "magnitudes:report", "magnitudes:calculate-error", "validator:cells", "cli-fault-menu:expected-failures", "cli-fault-menu:expected-successes"] {
@@ -591,7 +599,7 @@ pub fn c15(tier: Tier) -> i32 {
     }
     ctx.bound = json!({"token_sequences_max_len": l_tok, "token_alphabet": TOKENS.len(), "magnitude_ledgers_max_events": l_mag, "magnitude_event_alphabet": nmag});
     ctx.alphabets.push(json!({"tokens": TOKENS, "magnitudes": magnitudes(), "magnitude_events": "BUY/SELL with (quantity, price) over magnitudes^2 and fees over magnitudes; SPLIT/UNSPLIT ratio, CAPRETURN/ACCUMULATION total, DIVIDEND total and tax over magnitudes; event k dated base+k days", "bases": ["2024-01-10", "0001-01-01", "1900-04-04", "2101-04-05", "9999-12-29"]}));
-    ctx.explanation = "(a) every sequence of at most L tokens over a 30-token alphabet (dates, bad dates, every keyword, numbers incl. '1.' '.5' '-1', '@', currencies, '#', LF, CR, space, tab, non-ASCII, NUL, a complete line), joined by single spaces, goes through parse_file -> validate -> calculate -> plain text, JSON and derived getters, each step under catch_unwind, in child processes with a 10 s per-execution watchdog (abort/hang = violation). (b) every ordered ledger of at most k events over the magnitude alphabet {0, 1e-6, 1, 1e6, 1e-28, 1e14, 7.9e28} on every numeric field of every kind, at five calendar positions incl. the ends of the calendar, goes through the same pipeline as Transaction values. (c) CLI fault menu: report x {9 inputs} x {plain,json,pdf} x {stdout, new --output, existing --output, unwritable dir, existing default PDF path} plus parse/convert/--year/--fx-folder cells, one real process per cell: failures exit non-zero, print nothing on stdout, leave output paths byte-identical. (d) validator truth table over every sign pattern of every numeric field of every kind. (f) the Schwab converter on every row kind dated within 10 days of the ends of the date type's range and of years 0/1/9999, plain and 'as of' dates, with and without an awards file: never a panic. (e) MCP: 4 kinds of malformed JSON ledger x 3 tools x a multi-byte character at each of 150 offsets before and after the error site, pipelined into real `cgt-tool mcp` sessions: every request must get exactly one error response and the server must live until EOF.".into();
+    ctx.explanation = "(a) every sequence of at most L tokens over a 30-token alphabet (dates, bad dates, every keyword, numbers incl. '1.' '.5' '-1', '@', currencies, '#', LF, CR, space, tab, non-ASCII, NUL, a complete line), joined by single spaces, goes through parse_file -> validate -> calculate -> plain text, JSON and derived getters, each step under catch_unwind, in child processes with a 10 s per-execution watchdog (abort/hang = violation). (b) every ordered ledger of at most k events over the magnitude alphabet {0, 1e-6, 1, 1e6, 1e-28, 1e14, 7.9e28} on every numeric field of every kind, at five calendar positions incl. the ends of the calendar, goes through the same pipeline as Transaction values. (c) CLI fault menu: report x {9 inputs} x {plain,json,pdf} x {stdout, new --output, existing --output, unwritable dir, existing default PDF path} plus parse/convert/--year/--fx-folder cells, one real process per cell: failures exit non-zero, print nothing on stdout, leave output paths byte-identical. (d) validator truth table over every sign pattern of every numeric field of every kind. (f) the Schwab converter on every row kind dated within 10 days of the ends of the date type's range and of years 0/1/9999, plain and 'as of' dates, with and without an awards file: never a panic. (g) the Schwab converter on every multiset of at most 4 (thorough: 5) rows of the C18 row alphabet in every row order, with and without an awards file: never a panic. (e) MCP: 4 kinds of malformed JSON ledger x 3 tools x a multi-byte character at each of 150 offsets before and after the error site, pipelined into real `cgt-tool mcp` sessions: every request must get exactly one error response and the server must live until EOF.".into();
     ctx.assumptions = vec!["PDF rendering of hostile reports is exercised through the CLI cells only (C17 owns PDF content)".into()];
     ctx.finish(&acc, "model_checking")
 }
